@@ -1526,6 +1526,24 @@ static void DecodePMADCond(Word Index) {
     }
 }
 
+static void DecodeRC(Word Index) {
+    int     index;
+    Boolean OK;
+
+    if (!ChkArgCnt(1, ArgCntMax))
+        ;
+    else if (ThisPar) {
+        WrError(ErrNum_ParNotPossible);
+    } else if (LastRep) {
+        WrError(ErrNum_NotRepeatable);
+    } else if (!DecodeCondition(1, WAsmCode, &index, &OK)) {
+        WrStrErrorPos(OK ? ErrNum_UndefCond : ErrNum_IncompCond, &ArgStr[index]);
+    } else {
+        0 [WAsmCode] |= Index;
+        CodeLen = 1;
+    }
+}
+
 static void DecodeFPMAD(Word Index) {
     if (!ChkArgCnt(1, 1))
         ;
@@ -2562,6 +2580,9 @@ static void InitFields(void) {
     AddInstTable(InstTable, "BCD", 0xfa00, DecodePMADCond);
     AddInstTable(InstTable, "CC", 0xf900, DecodePMADCond);
     AddInstTable(InstTable, "CCD", 0xfb00, DecodePMADCond);
+
+    AddInstTable(InstTable, "RC", 0xfc00, DecodeRC);
+    AddInstTable(InstTable, "RCD", 0xfe00, DecodeRC);
 
     AddInstTable(InstTable, "FB", 0xf880, DecodeFPMAD);
     AddInstTable(InstTable, "FBD", 0xfa80, DecodeFPMAD);
